@@ -219,8 +219,10 @@ Release(p) ==                            \* leaving the with block              
 PostRun(p) == /\ At(p, "released") /\ Goto(p, "post_run")
               /\ UNCHANGED <<dir, lock, alive, cwd, info, rr, subs, exc, ret, outcome, preTask, postTask,
                              bodyStarts, bodyEnds, crashes, raises, okAtCheck, executed, touched>>
+(* Submitter.__call__ reads the result once more AFTER the job lock has been released (lock-free): *)
+(* the call returns the outputs only if a successful result is (still) found.                    *)
 Return(p) ==  /\ (At(p, "post_run") \/ At(p, "returning"))
-              /\ Goto(p, "idle") /\ ret' = [ret EXCEPT ![p] = "ok"]
+              /\ Goto(p, "idle") /\ ret' = [ret EXCEPT ![p] = IF LookupIdeal = "ok" THEN "ok" ELSE "raised"]
               /\ UNCHANGED <<dir, lock, alive, cwd, info, rr, subs, exc, outcome, preTask, postTask,
                              bodyStarts, bodyEnds, crashes, raises, okAtCheck, executed, touched>>
 RaiseOut(p) == /\ At(p, "raising")
@@ -310,6 +312,8 @@ ReturnedOkMeansComplete ==               \* never a partial / missing / errored 
   \A p \in Procs : (ret[p] = "ok" /\ pc[p] = "idle" /\ NoFaults) => \E c \in CacheSet : dir[c].res = "ok"
 NoPartialVisibleUnlocked ==              \* a half-written result only exists while its writer holds the lock (or died)
   (dir["root"].res \in {"empty", "partial"}) => (lock \in Procs)
+FinalReadFindsResult ==                   \* a call whose own run raised nothing returns its outputs
+  \A p \in Procs : (pc[p] = "idle" /\ alive[p] /\ subs[p] > 0 /\ exc[p] = "none") => ret[p] # "raised"
 (* C11 *)
 ReuseComplete ==                         \* a complete result in any listed cache is reused unless rerun
   \A p \in Procs : (executed[p] /\ ~rr[p]) => ~okAtCheck[p]
